@@ -12,6 +12,7 @@ def _reqs(c):
         he, dec = "0", []
         if gz == "1":
             he = c[k]; k += 1
+            k += 1  # <ended>: did the gzip reader consume the whole transport stream
             nd = int(c[k]); k += 1
             dec = c[k:k + nd]; k += nd
         out.append((gz, trans, he, dec))
@@ -36,6 +37,8 @@ def c11_classify(c, i):
         reads = dec if gz == "1" else trans
         if he == "1":
             out.append("gzip-header-error")
+        if gz == "1" and any(t.startswith("x:") for t in dec) and not any(t.startswith("x:") for t in trans):
+            out.append("gzip-corrupt-or-truncated")
         if any(t.startswith("x:") for t in reads):
             out.append("read-error")
         if any(t == "d:-" for t in trans):
